@@ -6,7 +6,7 @@ from . import schema_gen as G
 THEOREMS = ["C13_rt2", "C13_rt1", "C13_v0", "C13_refl", "C13_complete", "C13_shape_iff",
             "C13_prim_changed", "C13_field_added", "C13_array_len_changed", "C13_option_wrapped",
             "C13_vector_wrapped", "C13_width_changed",
-            "C13_rt1_refuted", "C13_refl_refuted_undefined", "C13_trait_plus_refuted",
+            "C13_rt1_refuted", "C13_refl_refuted_undefined", "C13_trait_plus_rejected", "C13_reader_no_panic",
             "C13_tables_agree", "C13_gates_agree", "C13_hypotheses_satisfiable"]
 
 HEADER = "From Coq Require Import String.\nFrom SF Require Import Bytes Schema Harness.\nImport ListNotations.\nOpen Scope string_scope.\nOpen Scope N_scope.\n"
@@ -210,7 +210,7 @@ def run(chk, tier, seed):
     kf_lines = [
         ("K7a", "900001 schema_diff 0 Un Un", lambda o: o == "DIFF", "diff_schema(Undefined, Undefined) reports a difference (reflexivity fails for Undefined)"),
         ("K7b", "900002 schema_diff 0 Fu 54 0 0 0 0 0 0 Fu 54 0 0 0 0 0 0", lambda o: o.startswith("PANIC"), "diff_schema on a Future outside return position panics"),
-        ("K13p", "900003 schema_de 2 %s" % (bytes([15, 1]) + (5).to_bytes(8, "little") + b"T+Foo" + (0).to_bytes(8, "little")).hex(),
+        ("F17", "900003 schema_de 2 %s" % (bytes([15, 1]) + (5).to_bytes(8, "little") + b"T+Foo" + (0).to_bytes(8, "little")).hex(),
          lambda o: o.startswith("PANIC"), "stored trait name with an unknown +segment panics the schema reader"),
         ("K10s", "900004 schema_rt 1 Tr 0 54 1 66 Ze 1 0 0 0 0", lambda o: o == "OK 0 1", "format 1 drops receiver/async of trait methods (Mut receiver reads back as Shared)"),
     ]
